@@ -37,10 +37,24 @@ func num(n float64) any {
 // RenderValue spells a tagged value of spec/SchemaValid.tla as a Go value for json.Marshal.
 // Symbols maps the symbolic characters of the TLA+ string domain to concrete ones; every
 // other symbol is the character itself. Each is one character (lengths count characters).
-var Symbols = map[string]string{"e": "é", "quote": `"`, "bslash": `\`, "nl": "\n", "nul": "\x00", "ls": "\u2028", "astral": "\U0001F600", "ee": "ü", "lt": "<"}
+var Symbols = map[string]string{
+	"dt_z": "2020-01-02T03:04:05Z", "dt_plus": "2020-01-02T03:04:05+00:00", "dt_off": "2020-01-02T05:04:05+02:00", "dt_frac": "2020-01-02T03:04:05.5Z",
+	"dt_month13": "2020-13-01T00:00:00Z", "dt_nozone": "2020-01-02T03:04:05", "dt_feb30": "2020-02-30T00:00:00Z",
+	"d_1": "2020-01-02", "d_feb30": "2020-02-30", "d_short": "2020-1-2",
+	"t_1": "03:04:05", "t_frac": "03:04:05.5", "t_25h": "25:00:00",
+	"u_1": "123e4567-e89b-12d3-a456-426614174000", "u_upper": "123E4567-E89B-12D3-A456-426614174000", "u_short": "123e4567",
+	"ip_1": "192.168.0.1", "ip_256": "256.1.1.1",
+	"du_1": "1h2m3s", "du_90m": "90m", "du_1h30m0s": "1h30m0s", "du_frac": "1.5s", "du_bad": "1x",
+	"si_12": "12", "si_neg": "-7", "si_7": "7", "si_frac": "1.5", "si_big": "9223372036854775808",
+	"e": "é", "quote": `"`, "bslash": `\`, "nl": "\n", "nul": "\x00", "ls": "\u2028", "astral": "\U0001F600", "ee": "ü", "lt": "<"}
 
 // SymbolsOf is the inverse: the symbol sequence of a concrete string.
 func SymbolsOf(s string) []string {
+	for k, v := range Symbols {
+		if v == s && len([]rune(v)) > 1 {
+			return []string{k}
+		}
+	}
 	out := []string{}
 	for _, r := range s {
 		c := string(r)
@@ -130,6 +144,8 @@ func RenderSchema(s M, self string) M {
 		return out
 	case "bool":
 		return M{"type": "boolean"}
+	case "fmt":
+		return M{"type": s["ty"], "format": s["name"]}
 	case "str":
 		out := M{"type": "string"}
 		if f("minL") > 0 {
@@ -333,6 +349,24 @@ func Load(r *core.Run) (schemas []M, insts []M, aux string, err error) {
 		}
 		schemas = append(schemas, v.Schema)
 	}
+	// the spec's table of symbol lengths has to describe the texts this harness sends
+	yl, err := emit("syms")
+	if err != nil {
+		return nil, nil, "", err
+	}
+	for _, l := range yl {
+		var v struct {
+			Sym  string `json:"sym"`
+			Len  int    `json:"len"`
+			HasB bool   `json:"hasb"`
+		}
+		if err := json.Unmarshal(l, &v); err != nil {
+			return nil, nil, "", err
+		}
+		if t, ok := Symbols[v.Sym]; !ok || len([]rune(t)) != v.Len || strings.Contains(t, "b") != v.HasB {
+			return nil, nil, "", fmt.Errorf("%w: symbol %q: spec says %d characters, hasb=%v; harness text %q", tlc.ErrInfra, v.Sym, v.Len, v.HasB, t)
+		}
+	}
 	il, err := emit("insts")
 	if err != nil {
 		return nil, nil, "", err
@@ -377,6 +411,11 @@ func primKind(s M) string {
 	switch s["k"] {
 	case "str", "int", "num", "bool":
 		return s["k"].(string)
+	case "fmt":
+		if s["ty"] == "string" {
+			return "str"
+		}
+		return "int"
 	case "enum":
 		return primKind(s["s"].(M))
 	}
